@@ -161,7 +161,9 @@ SRC_TIE = {
     'C01': {'Bits': ['BitArray.tolist', 'BitArray.fromlist'], 'Conv': ['_pytype_to_string', '_string_to_pytype'],
             'Entry': ['dumps', 'loads'],
             'LoopRoundTrip': ['_dict_to_iso8583_loop', '_iso8583_to_dict_loop', '_iso8583_to_dict', 'BitArray.tolist',
-                              'BitArray.fromlist']},
+                              'BitArray.fromlist'],
+            'FieldWhole': ['_iso8583_to_field_whole', '_iso8583_to_field_frame', '_field_to_iso8583', '_string_to_pytype',
+                           '_string_to_pytype_bytes', '_dict_to_iso8583_loop', '_iso8583_to_dict']},
     'C02': {'Bits': ['BitArray.tolist', 'BitArray.fromlist'], 'Field': ['_get_field_length', '_field_to_iso8583', '_iso8583_to_field_frame'],
             'EncLoop': ['_dict_to_iso8583_loop', 'BitArray.fromlist'], 'Conv': ['_pytype_to_string', '_string_to_pytype'],
             'Entry': ['dumps', 'loads']},
